@@ -4,11 +4,11 @@
 # so this can run next to other checks).
 id=$1; d=$(realpath $2); shift 2
 ./tools/seed_confirm.sh $id $d 2>&1 | grep RESULT | cut -c1-80 | tee -a /tmp/seed-confirm-4.log
-wt=/tmp/wtc-try
+wt=/tmp/wtc-try${SLOT:-}
 if [ ! -d $wt ]; then git -C /repo worktree add -q --detach $wt HEAD || exit 9; fi
 git -C $wt checkout -q --detach $(git -C /repo rev-parse HEAD) && git -C $wt checkout -q -- . || exit 9
 git -C $wt apply $d/patch.diff || { echo "patch does not apply"; exit 9; }
-export VERIF_REPO=$wt VERIF_CACHE=/tmp/wtc-try-cache VERIF_EVIDENCE=/tmp/wtc-try-evidence
+export VERIF_REPO=$wt VERIF_CACHE=/tmp/wtc-try${SLOT:-}-cache VERIF_EVIDENCE=/tmp/wtc-try${SLOT:-}-evidence
 mkdir -p $VERIF_EVIDENCE
 for p in $id "$@"; do
   timeout 3600 ./check $p --tier ${TIER:-quick} 2>&1 | grep -v "KNOWN\|first case" | tail -4 | cut -c1-260
